@@ -12,6 +12,7 @@ import (
 	"github.com/sirupsen/logrus"
 
 	"github.com/free5gc/chf/cdr/cdrType"
+	"github.com/free5gc/chf/internal/cgf"
 	chf_context "github.com/free5gc/chf/internal/context"
 	"github.com/free5gc/chf/internal/logger"
 	"github.com/free5gc/chf/internal/sbi"
@@ -257,4 +258,11 @@ func LocalRecordSeq() uint64 {
 	c.Lock()
 	defer c.Unlock()
 	return c.LocalRecordSequenceNumber
+}
+
+// OpenCgf starts the charging gateway function the way service.Start does.
+func OpenCgf(ctx context.Context, wg *sync.WaitGroup) {
+	cgf.CGFEnable = true
+	wg.Add(1)
+	cgf.OpenServer(ctx, wg)
 }
